@@ -420,6 +420,7 @@ func (fc *FnCtx) unop(fr *Frame, st *State, reach string, t *ssa.UnOp) Val {
 			fc.oblige(fr, "nil", fc.exprAt(fr, t.Pos(), isStar), reach, tNot(tEq(x.A.Base, "0")), false, nil)
 		}
 		fc.guardedAccess(fr, st, reach, x.A, false)
+		fc.atRead(fr, st, reach, x.A)
 		return fc.nameVal(fc.load(st, x.A), t.Name())
 	case token.NOT:
 		return boolVal(tNot(x.S))
@@ -436,6 +437,7 @@ func (fc *FnCtx) unop(fr *Frame, st *State, reach string, t *ssa.UnOp) Val {
 		}
 		et := t.X.Type().Underlying().(*types.Chan).Elem()
 		v := fc.freshVal(st, et, "recv")
+		fc.noteRecvTry(st, x)
 		fc.chanRecv(st, reach, x, v, "true")
 		if t.CommaOk {
 			ok := fc.sc.fresh("recvok", "Bool")
@@ -915,6 +917,7 @@ func (fc *FnCtx) selectOp(fr *Frame, st *State, t *ssa.Select) Val {
 		if sst.Send != nil {
 			continue
 		}
+		fc.noteRecvTry(st, fc.value(fr, st, sst.Chan))
 		if ri < tu.Len() {
 			got := fc.freshVal(st, tu.At(ri).Type(), "selrecv")
 			v.Fs = append(v.Fs, got)
@@ -923,6 +926,41 @@ func (fc *FnCtx) selectOp(fr *Frame, st *State, t *ssa.Select) Val {
 		}
 	}
 	return v
+}
+
+// noteRecvTry counts a receive attempt on a channel (built-in volatile ghost
+// recvtries; modelled only in functions whose contract mentions it).
+func (fc *FnCtx) noteRecvTry(st *State, ch Val) {
+	if ch.S == "" || !fc.usesVolatile("recvtries") {
+		return
+	}
+	l := loc{name: "GH$recvtries", idx: []string{ch.S}, sort: "Int"}
+	fc.storeLoc(st, l, sx("+", fc.loadLoc(st, l), "1"))
+}
+
+// atRead checks the function's `atread` clauses just before a load of a struct
+// field with that name (in the function's own body, not in inlined callees).
+func (fc *FnCtx) atRead(fr *Frame, st *State, reach string, a *Addr) {
+	if fr.parent != nil || fc.con == nil || len(fc.con.AtRead) == 0 || a.Kind != AObj || len(a.Path) == 0 || a.Root == nil {
+		return
+	}
+	if structOf(a.Root) == nil {
+		return
+	}
+	full, _ := pathName(a.Root, a.Path)
+	last := full
+	if i := strings.LastIndex(full, "."); i >= 0 {
+		last = full[i+1:]
+	}
+	for _, ar := range fc.con.AtRead {
+		if ar.Field != last && ar.Field != full {
+			continue
+		}
+		env := fc.specEnv(st, fc.oldSt, fc.paramVars(fr), fr.fn.Pkg.Pkg, fr, ar.Clause.Text)
+		for _, part := range splitConj(ar.Clause.Expr) {
+			fc.oblige(fr, "atread", ar.Field+": "+clauseName(ar.Clause), reach, env.evalBool(part), env.quant, nil)
+		}
+	}
 }
 
 // atSend checks the function's `atsend` clauses for a send on a channel that
